@@ -14,6 +14,7 @@ import (
 	"io"
 	"os"
 	"path/filepath"
+	"strconv"
 	"strings"
 	"sync"
 	"sync/atomic"
@@ -85,6 +86,14 @@ func C16HistoriesChild(tier string, out io.Writer) int {
 	budget := 7 * time.Minute
 	if tier == "thorough" {
 		budget = 40 * time.Minute
+	}
+	if v := os.Getenv("VERIF_BUDGET_S"); v != "" { // (the parent's budget, minus the time it needs to wind up)
+		if secs, err := strconv.Atoi(v); err == nil && time.Duration(secs)*time.Second-time.Minute < budget {
+			budget = time.Duration(secs)*time.Second - time.Minute
+			if budget < 30*time.Second {
+				budget = 30 * time.Second
+			}
+		}
 	}
 	h := &histCollector{deadline: time.Now().Add(budget), out: out}
 	h.res.Sets = map[string]interface{}{}
